@@ -57,7 +57,7 @@ var reCollection = regexp.MustCompile(`^([a-z]|X[0-9]+)s$`)
 func C07(e *core.Env) {
 	res := e.Res
 	res.Rule = "cases = well-formed declarative profiles that must compile: (a) N nested constraints side by side in one validation, N in 1..40 crossing the 25-letter boundary (quick: 14 values, thorough: all), (b) nesting depth 1..7, (c) 1..30 validations over the three levels, (d) every documented constraint kind x path shape (single, sequence, alternative, inverse, alternative inside a sequence inside an alternative, @type), (e) several constraints of one kind in one rule body (or / if / not-and), with messages of 0..3 placeholders, (f) seeded random formulas; " +
-		"for (a) and (b) the quantified variables and collections found in the real module (parsed with the engine's parser) must be exactly the model's var_name / plural; (i) the string literal written for 12 patterns and the set literal written for 6 value lists, text against text with the Coq model; (h) 29 legal but degenerate / unusual arguments (empty lists, zero counts, patterns with a backtick / quote / backslash class / newline, path keys over several lines or with tabs, zero / negative / float bounds, quantifier counts 0 and 10^6) plain and under not; (j) 8 level listings (a validation under two / three levels, twice under one level, a level listing only validations another level lists too); (k) histories: two well-formed profiles compiled three times after each of 6 refused profiles (undeclared prefix in a path / class / placeholder, broken Rego, a non-path, no YAML); (m) the text of whole rules (one-branch validations: a count / length / pattern / datatype / numeric-bound / `in` / containsAll / containsSome / property-pair constraint plain or under `not`, an `or` of two, a conjunction of two (one rule per member) plain and under `not`, over three path shapes, three levels, names with quotes and percent signs, messages with 0-2 placeholders), every line against RuleGen.rule_lines; (l) the text of the path rules (values and nodes mode) of every path with <= 2 leaves and a sample with 3, over regular and custom (api-extension) properties, line by line against PathGen.path_rule_lines; (g) 25 texts (each control / format / astral / quoting character on its own) x {profile name, validation name, message, list value}; (o) 5 profiles whose prefixes, class names and property names hold underscores (legal in the path grammar) in every position an IRI can stand; (n) THE WHOLE MODULE: for every profile above, and for the profile files of the repository's test data, the text generator.Generate writes (name counter reset) against Elab.compile / Compile.module_text, byte for byte; sequences of two and three profiles generated without resetting the counter; non-trivial = every case; distinct by profile text"
+		"for (a) and (b) the quantified variables and collections found in the real module (parsed with the engine's parser) must be exactly the model's var_name / plural; (i) the string literal written for 12 patterns and the set literal written for 6 value lists, text against text with the Coq model; (h) 30 legal but degenerate / unusual arguments (empty lists, zero counts, patterns with a backtick / quote / backslash class / newline, path keys over several lines or with tabs, zero / negative / float bounds, quantifier counts 0 and 10^6) plain and under not; (j) 8 level listings (a validation under two / three levels, twice under one level, a level listing only validations another level lists too); (k) histories: two well-formed profiles compiled three times after each of 6 refused profiles (undeclared prefix in a path / class / placeholder, broken Rego, a non-path, no YAML); (m) the text of whole rules (one-branch validations: a count / length / pattern / datatype / numeric-bound / `in` / containsAll / containsSome / property-pair constraint plain or under `not`, an `or` of two, a conjunction of two (one rule per member) plain and under `not`, over three path shapes, three levels, names with quotes and percent signs, messages with 0-2 placeholders), every line against RuleGen.rule_lines; (l) the text of the path rules (values and nodes mode) of every path with <= 2 leaves and a sample with 3, over regular and custom (api-extension) properties, line by line against PathGen.path_rule_lines; (g) 25 texts (each control / format / astral / quoting character on its own) x {profile name, validation name, message, list value}; (o) 5 profiles whose prefixes, class names and property names hold underscores (legal in the path grammar) in every position an IRI can stand; (n) THE WHOLE MODULE: for every profile above, and for the profile files of the repository's test data, the text generator.Generate writes (name counter reset) against Elab.compile / Compile.module_text, byte for byte; sequences of two and three profiles generated without resetting the counter; non-trivial = every case; distinct by profile text"
 	// every profile compiled below is also generated once more and its module compared, byte for byte, with the text the
 	// Coq model of the whole generator (Elab.compile) computes from the YAML tree
 	tc := newTextChecker(e, res)
@@ -314,6 +314,7 @@ func C07(e *core.Env) {
 		{"pattern-newline", pcb("ex.a", "pattern: \"a\\nb\"")},
 		{"pattern-dollar-brace", pcb("ex.a", "pattern: '^\\$\\{[a-z]+\\}$'")},
 		{"pattern-empty", pcb("ex.a", "pattern: ''")},
+		{"atLeast-and-atMost-under-one-key", pcb("ex.a", "atLeast:\n          count: 3\n          validation:\n            propertyConstraints:\n              ex.b:\n                minCount: 1\n        atMost:\n          count: 2\n          validation:\n            propertyConstraints:\n              ex.c:\n                maxCount: 0")},
 		{"pattern-byte-order-mark", pcb("ex.a", "pattern: \"a\\uFEFFb\"")},
 		{"path-over-two-lines", pcb("\"ex.a /\\n ex.b\"", "minCount: 1")},
 		{"path-with-tabs", pcb("\"ex.a\\t/\\tex.b\"", "minCount: 1")},
